@@ -307,6 +307,15 @@ def _variant_arms(F, B, b):
     return None
 
 
+def _mentions_union_word(e, depth=0):
+    """The expression reads the union's pointer field (`.p`, possibly inside a private newtype)."""
+    if not isinstance(e, tuple) or depth > 60:
+        return False
+    if e and e[0] == "proj" and any(n == "p" for n in e[2]):
+        return True
+    return any(_mentions_union_word(x, depth + 1) for x in e if isinstance(x, tuple))
+
+
 def _decrements(F, key):
     eng = F.__dict__.get("_c12_engine")
     if eng is None:
@@ -489,6 +498,44 @@ def _arms(F, A, rep, tag, gen, only_count=False):
                 rep.ok("R-ARMS", ik, cfg=tag)
             else:
                 rep.bad("R-ARMS", ik, why, F.loc(b), tag)
+    # typed access anywhere: a borrow or handle typed at one of the union's payload types and built from the union's word
+    # (`ArcBorrow::<A>::from_ptr(word & !1)`, `Arc::<B>::from_raw(..)`) sits in the arm of that variant - wherever the code lives
+    # (arc-swap glue written for the union, a private helper): typed at the other variant it finds the count at the wrong offset
+    for b in F.body_list:
+        if b["kind"] not in ("Fn", "AssocFn"):
+            continue
+        if not any(F.handle_name(F.strip_refs(t)) == "ArcUnion" for t in b.get("inputs", [])):
+            continue
+        fb = inline.inlined_full(F, b["key"]) or b
+        FB = cfg.Body(fb)
+        sites = []
+        for bi, t in FB.calls():
+            c = atomics.callee_of(t)
+            cb = F.body(c) if c else None
+            if cb is None or cb.get("name") not in ("from_ptr", "from_raw") or F.handle_name((cb.get("impl") or {}).get("self_ty", -1)) not in ("ArcBorrow", "Arc"):
+                continue
+            r = t.get("resolved")
+            ga = [F.ts(a["t"]) for a in (r["args"] if isinstance(r, dict) else []) if "t" in a]
+            if not ga or ga[0] not in gen or not t["args"]:
+                continue
+            e = symx.expr(F, FB, t["args"][0])
+            if not _mentions_union_word(e):
+                continue
+            sites.append((bi, t, ga[0]))
+        if not sites:
+            continue
+        excl = _variant_arms(F, FB, fb)
+        for si, (bi, t, ty) in enumerate(sites):
+            ik2 = "%s/typed-access:%s#%d" % (b["key"], ty, si)
+            want = "First" if ty == gen[0] else "Second"
+            if gen[0] == gen[1]:
+                rep.ok("R-ARMS", ik2, cfg=tag)
+            elif excl is None:
+                rep.bad("R-ARMS", ik2, "%s is built from the union's word at type %s without a test of the variant: for a union holding the other variant the count is looked for at the wrong offset (the data offset depends on the payload's alignment)" % ((F.body(atomics.callee_of(t)) or {}).get("name"), ty), F.loc(b, t["span"]), tag)
+            elif bi not in excl[want]:
+                rep.bad("R-ARMS", ik2, "the access typed at %s is not confined to the %s arm" % (ty, want), F.loc(b, t["span"]), tag)
+            else:
+                rep.ok("R-ARMS", ik2, cfg=tag)
     if only_count:
         return
     # both Drop arms release exactly one owner of their own type (R-BAL on Drop is C01; here: each arm drops an Arc)
